@@ -275,7 +275,7 @@ def run_shard(spec, seed, tier):
     acc = core.Acc()
     if spec.get('targets'):
         if spec.get('slice'):
-            run_targets(spec['entry'], seed, acc, only_composite_required=True, limit=3)
+            run_targets(spec['entry'], seed, acc, only_composite_required=True, limit=10)
         else:
             run_targets(spec['entry'], seed, acc)
     else:
